@@ -26,21 +26,16 @@ def is_jxlp_place(f, defs, p):
     if len(p) < 2 or p[1] != "*":
         return False
     ap = access_path(f, defs, p[0])
-    return bool(ap and ap[1] and ap[1][-1] == "jxlp_index_state")
+    if ap and ap[1] and ap[1][-1] == "jxlp_index_state":
+        return True
+    # a method of the state type itself: (*self) with self: &mut JxlpIndexState
+    root = ap[0] if ap else p[0]
+    ty = f.local_ty(root)
+    return ap is not None and ap[1] == () and ty.lstrip("&").replace("mut ", "").strip() == JXLP
 
 
-def rule_jxlp(ctx, bs):
-    rid = "R-JXLP"
-    ctx.rule(rid, "the transition table of the partial-codestream typestate is extracted from MIR (for every switch on the discriminant of "
-                  "ContainerParser.jxlp_index_state: variant -> first effects {set V, incr, err, panic, proceed}) and must equal the "
-                  "reference table; comparison is on effects, not code shape")
-    f = bs.fn(EMIT)
-    adt = bs.adts.get(JXLP)
-    if f is None or adt is None:
-        ctx.anchor_missing(rid, EMIT if f is None else JXLP)
-        return
-    ctx.seen(f)
-    variants = [v["name"] for v in adt["variants"]]
+def jxlp_signatures(f, variants):
+    """[(block, {variant: first effects})] for every switch of f on the discriminant of the jxlp index state; and the effect map"""
     defs = Defs(f)
     errs = validation.err_return_blocks(f)
     pan = validation.panics(f)
@@ -78,7 +73,8 @@ def rule_jxlp(ctx, bs):
             elif len(p) == 2 and p[1] == "*" and st[2][0] in ("use",):
                 # store through a reference to the Jxlp payload: `*index += 1`
                 ap = access_path(f, defs, p[0])
-                if ap and "jxlp_index_state" in ap[1] and "as Jxlp" in ap[1]:
+                if ap and "as Jxlp" in ap[1] and ("jxlp_index_state" in ap[1]
+                                                 or f.local_ty(ap[0]).lstrip("&").replace("mut ", "").strip() == JXLP):
                     add(b, "incr")
                 # store of a DetectState through `state`
                 l = op_local(st[2][1])
@@ -87,6 +83,14 @@ def rule_jxlp(ctx, bs):
                     add(b, "proceed")
             if st[2][0] == "agg" and st[2][1][0] == "adt" and st[2][1][1] == DETECT and len(p) == 2 and p[1] == "*":
                 add(b, "proceed")
+    if not f.path.endswith("::emit_single"):
+        for b, blk in enumerate(f.blocks):
+            if f.is_cleanup(b):
+                continue
+            for st in blk[0]:
+                if st[0] == "=" and st[1] == [0] and st[2][0] == "agg" and st[2][1][0] == "adt" and st[2][1][1] == "core::result::Result" and st[2][1][2] == "Ok":
+                    if b not in eff:
+                        add(b, "proceed")
     sigs = []
     for b in range(len(f.blocks)):
         if f.is_cleanup(b):
@@ -101,9 +105,37 @@ def rule_jxlp(ctx, bs):
             tgt = listed.get(vi, t[3])
             sig[vn] = frozenset(first_effects(f, tgt, eff))
         sigs.append((b, sig))
+    return sigs, eff
+
+
+def rule_jxlp(ctx, bs):
+    rid = "R-JXLP"
+    ctx.rule(rid, "the transition table of the partial-codestream typestate is extracted from MIR (for every switch on the discriminant of "
+                  "ContainerParser.jxlp_index_state: variant -> first effects {set V, incr, err, panic, proceed}) and must equal the "
+                  "reference table; comparison is on effects, not code shape")
+    f = bs.fn(EMIT)
+    adt = bs.adts.get(JXLP)
+    if f is None or adt is None:
+        ctx.anchor_missing(rid, EMIT if f is None else JXLP)
+        return
+    ctx.seen(f)
+    variants = [v["name"] for v in adt["variants"]]
+    sigs = []
+    eff = {}
+    for g in bs.fn_list:
+        if g.kind == "Promoted":
+            continue
+        gs, ge = jxlp_signatures(g, variants)
+        # a switch none of whose arms has an effect on the state or the result (derived Debug / Clone, pure observers) is no transition
+        gs = [(b_, sg) for b_, sg in gs if any(set(e) - {"return"} for e in sg.values())]
+        if gs:
+            ctx.seen(g)
+            sigs.extend((g, b_, sg) for b_, sg in gs)
+        if g is f:
+            eff = ge
     ctx.count(rid + ".switches", len(sigs))
     used = set()
-    for b, sig in sigs:
+    for g, b, sig in sigs:
         match = None
         for name, ref in REF_SIGNATURES.items():
             if all(set(sig.get(v, ())) == ref[v] for v in variants) and name not in used:
@@ -112,22 +144,20 @@ def rule_jxlp(ctx, bs):
         shown = {v: sorted(s) for v, s in sig.items()}
         if match:
             used.add(match)
-            ctx.ok(rid, "table:" + match, "line %d: %s" % (pos_line(f.term_pos(b)), shown), nontrivial=True, fn=f)
+            ctx.ok(rid, "table:" + match, "%s line %d: %s" % (g.path.split("::")[-1], pos_line(g.term_pos(b)), shown), nontrivial=True, fn=g)
         else:
             # which reference is closest
             best = min(REF_SIGNATURES.items(), key=lambda kv: sum(set(sig.get(v, ())) != kv[1][v] for v in variants))
             diffs = {v: (sorted(sig.get(v, ())), sorted(best[1][v])) for v in variants if set(sig.get(v, ())) != best[1][v]}
             ctx.bad(rid, "table-mismatch:%s:%s" % (best[0], ",".join(sorted(diffs))),
                     "jxlp/jxlc state transitions differ from the container rules (closest table %s): %s  [found, required]"
-                    % (best[0], diffs), fn=f, pos=f.term_pos(b))
-    for name in REF_SIGNATURES:
-        if name not in used and len(sigs) >= 0:
-            if not any(True for b, s in sigs if False):
-                pass
+                    % (best[0], diffs), fn=g, pos=g.term_pos(b))
     missing = [n for n in REF_SIGNATURES if n not in used]
     for n in missing:
         ctx.bad(rid, "table-missing:" + n, "no switch on the jxlp index state implements the `%s` transition table" % n, fn=f)
     # out-of-order rejection and the end flag
+    defs = Defs(f)
+    errs = validation.err_return_blocks(f)
     cs = validation.checks(f, errs=errs)
     conds = {validation.norm(c["subject"], c["op"], c["other"]) for c in cs}
     if "expected_index != index" in conds or "index != expected_index" in conds:
